@@ -374,6 +374,27 @@ def real_stream(ctx, mods):
     except Exception as e:  # noqa: BLE001
         ctx.violation("EAS.__call__", "all-out-of-range-batch-raises", f"a batch with no in-range event raises {type(e).__name__}: {e}",
                       {"altDec": alt_out.tolist()})
+    # ---- the decay altitudes given as whole kilometres in an integer type (an altitude scan built with np.arange): the same
+    # numbers must give the same signal as their float64 copies (the output type may not be inherited from this input)
+    grid = np.array([0, 2, 4, 6, 9, 12, 15, 18, 20, 22, 3, 7])
+    mg = len(grid)
+    cfg = make_cfg(nss, Detector, np.float64(525.0), 2.5, 0.2, 10.0)
+    try:
+        ref_pe, ref_cos, *_ = run_real(mods, cfg, beta[:mg], grid.astype(np.float64), E[:mg])
+        for nm, g_ in (("int64", grid.astype(np.int64)), ("int32", grid.astype(np.int32)), ("float32", grid.astype(np.float32))):
+            ctx.case(("alt-dtype", nm), None)
+            ctx.count("altitude_dtype_" + nm)
+            pe_i, cos_i, *_ = run_real(mods, cfg, beta[:mg], g_, E[:mg])
+            pe_i, cos_i = np.asarray(pe_i, dtype=np.float64), np.asarray(cos_i, dtype=np.float64)
+            if not (np.allclose(pe_i, ref_pe, rtol=1e-6, atol=0) and np.allclose(cos_i, ref_cos, rtol=1e-9, atol=0)):
+                k_ = int(np.argmax(np.abs(pe_i - ref_pe) / np.maximum(np.abs(ref_pe), 1e-300) + np.abs(cos_i - ref_cos)))
+                ctx.violation("EAS.__call__", "depends-on-the-dtype-of-the-altitudes",
+                              f"decay altitudes given as {nm} holding the same whole numbers give another signal than their float64 copies",
+                              {"dtype": nm, "altDec": float(grid[k_]), "beta": float(beta[k_]), "showerEnergy": float(E[k_]),
+                               "numPEs_float64": float(ref_pe[k_]), "numPEs_other": float(pe_i[k_]), "cos_float64": float(ref_cos[k_]), "cos_other": float(cos_i[k_])})
+                break
+    except Exception as e:  # noqa: BLE001
+        ctx.violation("EAS.__call__", "integer-altitudes-raise", f"{type(e).__name__}: {str(e)[:120]}", {"altDec": grid.tolist()})
     # ---- metamorphic relations between the paired runs (REAL code only)
     p0, pe0, cos0, kd0, kt0 = runs["base"]
     inr = ~((alt < 0.0) | (alt > 20.0))
